@@ -12,6 +12,8 @@ G41 = sorted(set(G11 + [round(0.05 * i, 2) for i in range(1, 20)] +
 BOUNDARY = [0.0, 1e-12, 1 - 1e-12, 1.0]
 # positive values so small that u ** -theta overflows: still points of the unit square "within 1e-12 of the boundary"
 TINY = [5e-324, 1e-300, 1e-100, 1e-40]
+# values on both sides of float32 eps (1.19e-7), the library's EPSILON: a tolerance used as a boundary test shows here
+NEAR = [1e-9, 1e-8, 6e-8, 1.3e-7, 1e-6, 1 - 1e-6, 1 - 1.3e-7, 1 - 6e-8, 1 - 1e-9]
 
 THETAS = {
     'quick': {
